@@ -44,12 +44,18 @@ RULE = ("exhaustive: every DAG on <=4 (quick) / <=5 (thorough) labelled nodes x 
         "route; edge and node weights are exercised and must be ignored), I backends (no tensor operation).  "
         "Domain limits of the objects (documented API, see DESIGN.md section 0): IndependenceAssertion takes non-empty string "
         "variables (listings only with such names; DynamicNode variables are out of its domain, so DBN listings are not "
-        "compared); a tuple as a single observed / variables argument is a collection; get_immoralities sorts each pair, so it "
-        "is asked only when the names sort; a DBN is given an observed SET only when it has not exactly two members and a "
-        "single observed node as a tuple; NaiveBayes' closed-form overrides are compared on single-character names, start not "
-        "observed, >=2 features for local_independencies (outside that they are undefined or wrong: reported, not listed).  "
-        "DynamicBayesianNetwork.get_markov_blanket is compared with the code's own augmentation rule and, while the network is "
-        "regular, with the model's blanket in the network unrolled to three slices plus the node itself (as coded).  "
+        "compared); a tuple as a single observed / variables argument is a collection; get_immoralities is compared as a set "
+        "of unordered pairs for every name style (the order inside a pair only when the names sort).  NaiveBayes (anchored file): "
+        "its closed-form active_trail_nodes / _get_ancestors_of / local_independencies and the inherited ancestral graph, blanket, "
+        "moral graph, immoralities are compared with the model on the star graph for one-character, multi-character, substring, "
+        "int, tuple and mixed names (observed as list / tuple / set / None, the documented forms; a single observed node only as a "
+        "one-character string); stream nbopen drives the open finding naivebayes-inherited-dsep-routes (TypeError out of the "
+        "inherited is_dconnected / get_independencies / minimal_dseparator; observed start node answered with the closed form) and "
+        "tags exactly that, a route that answers is compared with the model.  DynamicBayesianNetwork.py is NOT among this "
+        "property's anchors: the dbn stream checks the inherited DAG routes on DBN objects and the DBN overrides AS CODED (no "
+        "finding is tagged there): an observed SET only when it has not exactly two members, a single observed node as a tuple, "
+        "get_markov_blanket against the code's own augmentation rule and, while the network is regular, against the model's blanket "
+        "in the network unrolled to three slices plus the node itself.  "
         "A case is non-trivial when the graph has "
         ">=1 edge (sessions: >=1 edit); distinct = distinct (kind, graph, query) after canonicalisation")
 TRUSTED_BASE = ["networkx DiGraph storage (predecessors/successors/subgraph), dfs_preorder_nodes",
@@ -133,7 +139,13 @@ def cases(tier, seed):
                     "rounds": rng.randint(2, 4)})
     nnb = 15 if tier == "quick" else 150
     for i in range(nnb):
-        out.append({"kind": "nb", "nfeat": rng.randint(1, 9), "qseed": rng.randint(0, 10**9)})
+        out.append({"kind": "nb", "nfeat": rng.randint(1, 9), "qseed": rng.randint(0, 10**9),
+                    "style": rng.choice(["char", "str", "substr", "int", "tuple", "mixed"])})
+    # the open finding naivebayes-inherited-dsep-routes: inherited is_dconnected / get_independencies /
+    # minimal_dseparator on a NaiveBayes object, and an observed start node
+    for i in range(6 if tier == "quick" else 40):
+        out.append({"kind": "nbopen", "nfeat": rng.randint(1, 6), "qseed": rng.randint(0, 10**9),
+                    "style": rng.choice(["char", "str", "substr", "int", "tuple", "mixed"])})
     return out
 
 
@@ -993,15 +1005,16 @@ class Sess(object):
         if gm != mm or sorted(self.ident(u) for u in mg.nodes()) != sorted(self.nodes):
             return bad("impl!=model:session-moralize", self.where(stage=stage, impl=gm, model=mm))
         mg.add_edge(JUNK, self.nm(self.nodes[0]))
-        if _sortable(self.style):
+        if True:
             r = g.get_immoralities()
             gi = sorted({tuple(sorted((self.ident(a), self.ident(b_)))) for a, b_ in r})
             mi = sorted({tuple(sorted(e)) for e in self.drv.call("c08_immor", [self.nodes, self.E()])})
-            if gi != mi or not isinstance(r, set):
+            if gi != mi or not isinstance(r, set) or len(r) != len(mi):
                 return bad("impl!=model:session-immoralities", self.where(stage=stage, impl=gi, model=mi))
-            for a, b_ in r:
-                if not (a, b_) == tuple(sorted((a, b_))):
-                    return bad("impl!=model:immoralities-pair-not-sorted", self.where(stage=stage, pair=[repr(a), repr(b_)]))
+            if _sortable(self.style):
+                for a, b_ in r:
+                    if not (a, b_) == tuple(sorted((a, b_))):
+                        return bad("impl!=model:immoralities-pair-not-sorted", self.where(stage=stage, pair=[repr(a), repr(b_)]))
             r.add((JUNK, JUNK))
             tags.append("immoralities=" + ("0" if not mi else ("1-3" if len(mi) <= 3 else ">=4")))
         # several variables in one local_independencies call (list / tuple of variables)
@@ -1167,12 +1180,6 @@ def _fresh_names(style, names, rng, k):
     return out
 
 
-def _actual_latents(S, h):
-    """networkx's copy() of a plain DAG does not carry .latents (BayesianNetwork.copy does): for DAG copies the
-    latent set is read from the copy, and the answers must be consistent with it"""
-    return [S.ident(x) for x in h.latents if S.known(x)]
-
-
 def run_gsess(case, drv):
     import networkx as nx
     g, names, nodes = build(case)
@@ -1295,7 +1302,7 @@ def run_gsess(case, drv):
                 if r is g:
                     return bad("impl!=model:do-returns-self", S.where(stage=stage))
                 # the copy answers for the mutilated graph, the original for its own (checked below)
-                H = Sess(S.cls, r, S.names, S.nodes, after, S.lat() if S.cls == "BN" else _actual_latents(S, r), drv, S.style)
+                H = Sess(S.cls, r, S.names, S.nodes, after, S.lat(), drv, S.style)
                 H.fixed, H.history = S.fixed, S.history + [["do_copy", vs]]
                 b = H.check_state(stage + " (copy)")
                 if b:
@@ -1452,7 +1459,7 @@ def run_gsess(case, drv):
             h = g.copy()
             if h is g:
                 return bad("impl!=model:copy-returns-self", S.where(stage=stage))
-            H = Sess(S.cls, h, S.names, S.nodes, S.edges, S.lat() if S.cls == "BN" else _actual_latents(S, h), drv, S.style)
+            H = Sess(S.cls, h, S.names, S.nodes, S.edges, S.lat(), drv, S.style)
             H.fixed, H.history = S.fixed, S.history + [["copy"]]
             if H.edges:
                 e = rng.choice(H.edges)
@@ -1462,6 +1469,8 @@ def run_gsess(case, drv):
             b = H.check_state(stage + " (copy)")
             if b:
                 return b
+            if h.latents is g.latents:
+                return bad("result-not-independent:copy-shares-latents", S.where(stage=stage))
             for Z in S.fixed:
                 b = H.q_atn(rng, stage + " (copy)", [z for z in Z if z in set(S.nodes)], tags)
                 if b:
@@ -1788,22 +1797,37 @@ def run_dbn(case, drv):
 
 
 # ====================================================================== NaiveBayes objects
-def run_nb(case, drv):
-    """NaiveBayes overrides active_trail_nodes (returns a SET, closed form) and local_independencies; compared with the
-    model on the star graph in the part of the domain where the overrides are defined (single-character names, start not
-    observed, >= 2 features for local_independencies); the other DAG routes it inherits unchanged (blanket, moral graph,
-    immoralities) go through the common code"""
+def _nb_names(rng, style, k):
+    """k distinct node names; the first is the class variable (never a falsy name: NaiveBayes.add_edge tests
+    `if self.dependent`)"""
+    if style == "char":
+        return rng.sample("abcdefghijklmnopqrstuvwxyz", k)
+    if style == "str":
+        return rng.sample(["dep", "f1", "f2", "f10", "feat", "feature", "y", "cls", "target", "d", "de", "ep",
+                           "f", "1", "x_1", "x_2", "x_12", "label", "a b"], k)
+    if style == "substr":
+        return substr_names(rng, k)
+    if style == "int":
+        return rng.sample(range(1, k + 6), k)
+    if style == "tuple":
+        return [("v", i) for i in rng.sample(range(k + 4), k)]
+    pool = ["x", 3, ("t", 1), "y1", 7, "zz", ("u", 2), "w", 11, "q", 5, "r", 13, "y10"]
+    return rng.sample(pool, k)
+
+
+def _nb_build(case, drv):
     from pgmpy.models import NaiveBayes
     rng = random.Random(case["qseed"])
     f = case["nfeat"]
-    letters = rng.sample("abcdefghijklmnopqrstuvwxyz", f + 3)
-    dep, feats, spare = letters[0], letters[1:f + 1], letters[f + 1:]
+    style = case.get("style", "char")
+    allnames = _nb_names(rng, style, f + 4)
+    dep, feats, spare = allnames[0], allnames[1:f + 1], allnames[f + 1:]
     route = rng.choice(["ctor", "add_edges_from", "add_edge"])
     if route == "ctor":
         farg = list(feats)
         g = NaiveBayes(feature_vars=farg, dependent_var=dep)
         if farg != feats:
-            return bad("mutated-argument:feature_vars", {})
+            raise AssertionError("NaiveBayes changed its feature_vars argument")
     else:
         g = NaiveBayes()
         if route == "add_edges_from":
@@ -1814,11 +1838,32 @@ def run_nb(case, drv):
     names = {0: dep}
     for i, x in enumerate(feats):
         names[i + 1] = x
-    S = Sess("NB", g, names, list(names), [(0, i + 1) for i in range(f)], [], drv, "nb")
-    tags = ["nb features=%d" % f, "nb route=" + route]
+    S = Sess("NB", g, names, list(names), [(0, i + 1) for i in range(f)], [], drv,
+             "nb" if style in ("char", "str", "substr", "int", "tuple") else "mixed")
+    return S, g, rng, dep, feats, spare, route, style
+
+
+def _nb_forms(S, Z, style):
+    """NaiveBayes.active_trail_nodes documents `observed` as a list of nodes; a single node is handed over only as a
+    one-character string (the override applies `in` and set() to the argument)"""
+    f = ["list", "tuple", "set"]
+    if len(Z) == 1 and style == "char":
+        f.append("single")
+    if not Z:
+        f.append("none")
+    return f
+
+
+def run_nb(case, drv):
+    """NaiveBayes overrides active_trail_nodes (returns a SET, closed form), _get_ancestors_of and local_independencies;
+    compared with the model on the star graph for every name style (start not observed: the observed-start case is the
+    open finding, stream nbopen); the DAG routes it inherits and that work on it (ancestral graph, blanket, moral graph,
+    immoralities, local independencies) go through the common code"""
+    S, g, rng, dep, feats, spare, route, style = _nb_build(case, drv)
+    f = case["nfeat"]
+    tags = ["nb features=%d" % f, "nb route=" + route, "nb style=" + style]
 
     def queries(stage):
-        S.skip_local = len(S.nodes) < 3
         b = S.check_state(stage)
         if b:
             return b
@@ -1826,7 +1871,7 @@ def run_nb(case, drv):
             start = rng.choice(S.nodes)
             rest = [v for v in S.nodes if v != start]
             Z = rng.sample(rest, rng.randint(0, len(rest)))
-            form = rng.choice(S.forms_for(Z))
+            form = rng.choice(_nb_forms(S, Z, style))
             zo = S.zobj(Z, form)
             before = S.snap(zo)
             r = g.active_trail_nodes(S.nm(start), observed=zo)
@@ -1841,6 +1886,9 @@ def run_nb(case, drv):
             if r2 is r or JUNK in r2:
                 return bad("result-not-independent:naivebayes-active_trail_nodes", S.where(stage=stage))
             tags.append("nb observed-as=" + form)
+        b = S.q_anc(rng, stage, tags)
+        if b:
+            return b
         return S.q_misc(rng, stage, tags)
 
     b = queries("initial")
@@ -1866,7 +1914,76 @@ def run_nb(case, drv):
     b = queries("after rejected add_edge")
     if b:
         return b
-    return ok(nontrivial=True, key=common.canon_key(["nb", f, case["qseed"]]), tags=sorted(set(tags)))
+    return ok(nontrivial=True, key=common.canon_key(["nb", f, style, case["qseed"]]), tags=sorted(set(tags)))
+
+
+NB_OPEN = "naivebayes-inherited-dsep-routes"
+
+
+def run_nbopen(case, drv):
+    """open finding naivebayes-inherited-dsep-routes, diagnosed narrowly: (a) TypeError out of the inherited
+    is_dconnected / get_independencies / minimal_dseparator on a NaiveBayes object, (b) active_trail_nodes with the start
+    node among the observed nodes returning the override's closed form instead of the empty set.  A route that answers
+    is compared with the model; any other deviation is an unlisted violation."""
+    S, g, rng, dep, feats, spare, route, style = _nb_build(case, drv)
+    tags = ["nbopen features=%d" % case["nfeat"], "nbopen style=" + style]
+    hit = None
+    # (b) observed start node
+    for _ in range(4):
+        start = rng.choice(S.nodes)
+        rest = [v for v in S.nodes if v != start]
+        Z = [start] + rng.sample(rest, rng.randint(0, len(rest)))
+        rng.shuffle(Z)
+        zo = S.zobj(Z, rng.choice(["list", "tuple", "set"]))
+        r = g.active_trail_nodes(S.nm(start), observed=zo)
+        got = {S.ident(x) for x in r} if all(S.known(x) for x in r) else None
+        if got == S.atn(start, Z):
+            continue
+        as_coded = {start} if 0 in Z else set(S.nodes) - set(Z)
+        if got == as_coded and isinstance(r, set):
+            hit = hit or ("observed-start", {"start": start, "Z": sorted(Z), "impl": sorted(got), "model": []})
+            continue
+        return bad("impl!=model:naivebayes-active_trail_nodes-observed-start",
+                   S.where(start=start, Z=sorted(Z), impl=repr(r), model=sorted(S.atn(start, Z))))
+    # (a) inherited routes
+    if len(S.nodes) >= 2:
+        a, b_ = rng.sample(S.nodes, 2)
+        rest = [v for v in S.nodes if v not in (a, b_)]
+        Z = rng.sample(rest, rng.randint(0, len(rest)))
+        try:
+            d = g.is_dconnected(S.nm(a), S.nm(b_), observed=[S.nm(z) for z in Z])
+            if d is not (b_ in S.atn(a, Z)):
+                return bad("impl!=model:naivebayes-is_dconnected", S.where(start=a, end=b_, Z=sorted(Z), impl=repr(d)))
+        except TypeError as e:
+            if "include_latents" not in str(e):
+                raise
+            hit = hit or ("is_dconnected", {"start": a, "end": b_, "Z": sorted(Z), "error": str(e)[:200]})
+    if len(S.nodes) >= 3:
+        x, y = rng.sample(S.nodes[1:], 2)       # two features: never adjacent
+        try:
+            r = g.minimal_dseparator(S.nm(x), S.nm(y))
+            sep = sorted(S.ident(u) for u in r) if r is not None else None
+            if sep != [0]:
+                return bad("impl!=spec:naivebayes-minimal_dseparator", S.where(x=x, y=y, impl=repr(r), spec=[0]))
+        except TypeError as e:
+            if "include_latents" not in str(e):
+                raise
+            hit = hit or ("minimal_dseparator", {"x": x, "y": y, "error": str(e)[:200]})
+    if _strnames([S.nm(i) for i in S.nodes]) and 2 <= len(S.nodes) <= 5:
+        try:
+            g.get_independencies()
+            b = S.q_indep(rng, "nbopen", tags)
+            if b:
+                return b
+        except TypeError as e:
+            if "include_latents" not in str(e):
+                raise
+            hit = hit or ("get_independencies", {"error": str(e)[:200]})
+    key = common.canon_key(["nbopen", case["nfeat"], style, case["qseed"]])
+    if hit:
+        return bad("impl!=spec:naivebayes-inherited-route:" + hit[0], S.where(**hit[1]), finding=NB_OPEN, key=key,
+                   tags=tags + ["nbopen hit=" + hit[0]])
+    return ok(nontrivial=True, key=key, tags=tags)
 
 
 def run_case(case, drv):
@@ -1884,4 +2001,6 @@ def run_case(case, drv):
         return run_dbn(case, drv)
     if case["kind"] == "nb":
         return run_nb(case, drv)
+    if case["kind"] == "nbopen":
+        return run_nbopen(case, drv)
     return run_rand(case, drv)
